@@ -37,7 +37,7 @@ func c06Claimed(o *lockStep, requestPending bool) *eng.Disc {
 
 // one scripted event of a history
 type c06Event struct {
-	Kind string `json:"kind"` // "step" | "nmi" | "int"
+	Kind string `json:"kind"`           // "step" | "nmi" | "int"
 	Code []int  `json:"code,omitempty"` // step: bytes poked at PC before stepping
 	Data []int  `json:"data,omitempty"` // int: request data
 }
